@@ -115,88 +115,29 @@ def run(ctx, chk):
     consts = {c["name"]: int_of(c["init"]) for c in ctx.rspirv.items(PAR, "const")}
     sconsts = {c["name"]: int_of(c["init"]) for c in ctx.spirv.items("spirv", "const") if c["name"] != "_"}
 
-    R1 = chk.rule("R-HEADER", "parse_header: five words must be readable (else HeaderIncomplete); word 0 equal to the magic number -> "
+    R1 = chk.rule("R-HEADER", "parse_header, evaluated on the four abstract outcomes of reading the header: five words must be readable (else HeaderIncomplete); word 0 equal to the magic number -> "
                   "accept with bound = word 3 and version = word 1; equal to the byte-swapped magic -> EndiannessUnsupported; "
                   "otherwise HeaderIncorrect")
     W = raw.where("parse_header", "Parser")
     f = ctx.rspirv.fn(PAR, "parse_header", "Parser")
-    hr = [
-        ("WORDS_OK", lambda t: (True if re.search(r"self\.decoder\.words\((HEADER_NUM_WORDS|5)\) matches Ok\(", t) else
-                                 (False if re.search(r"self\.decoder\.words\((HEADER_NUM_WORDS|5)\) matches Err\(", t) else None))),
-        ("MAGIC_DIFFERS", lambda t: True if re.match(r"^\w+\[0\] != spirv::MAGIC_NUMBER$", t) else (False if re.match(r"^\w+\[0\] == spirv::MAGIC_NUMBER$", t) else None)),
-        ("MAGIC_SWAPPED", lambda t: True if re.match(r"^\w+\[0\] == spirv::MAGIC_NUMBER\.swap_bytes\(\)$", t) else None),
-    ]
-    want = {("Err", "HeaderIncomplete"): frozenset({("WORDS_OK", False)}),
-            ("Err", "EndiannessUnsupported"): frozenset({("WORDS_OK", True), ("MAGIC_DIFFERS", True), ("MAGIC_SWAPPED", True)}),
-            ("Err", "HeaderIncorrect"): frozenset({("WORDS_OK", True), ("MAGIC_DIFFERS", True), ("MAGIC_SWAPPED", False)}),
-            ("Ok", "header"): frozenset({("WORDS_OK", True), ("MAGIC_DIFFERS", False)})}
-    decision_table(chk, R1, "parse_header", result_sites(f), hr, want, W, lambda k, v: "header" if k == "Ok" else v)
+    from . import headerx
+    for inst, pb, sample in headerx.header_problems(ctx):
+        chk.check(R1, pb is None, inst, "%s %s" % (inst, pb), W, key="C03:header:" + inst, sample=sample)
     chk.check(R1, consts.get("HEADER_NUM_WORDS") == 5, "HEADER_NUM_WORDS=5", "HEADER_NUM_WORDS is %s" % consts.get("HEADER_NUM_WORDS"), W)
     chk.check(R1, sconsts.get("MAGIC_NUMBER") == 0x07230203, "MAGIC_NUMBER", "MAGIC_NUMBER is %s" % sconsts.get("MAGIC_NUMBER"), "spirv/autogen_spirv.rs")
-    hv = [show(n) for n in walk(f["body"]) if n[0] == "call" and (path_of(n[1]) or "").endswith("ModuleHeader::new")]
-    vv = [show(n) for n in walk(f["body"]) if n[0] == "call" and (path_of(n[1]) or "").endswith("create_version_from_word")]
-    sv = [show(n) for n in walk(f["body"]) if n[0] == "mcall" and n[2] == "set_version"]
-    chk.check(R1, len(hv) == 1 and re.search(r"ModuleHeader::new\(\w+\[3\]\)$", hv[0]) is not None, "bound=word[3]", "header built as %s" % hv, W)
-    chk.check(R1, len(vv) == 1 and re.search(r"create_version_from_word\(\w+\[1\]\)$", vv[0]) is not None and len(sv) == 1 and sv[0].endswith(".set_version(major, minor)"),
-              "version=word[1]", "version read as %s, set as %s" % (vv, sv), W)
-    wf = ctx.rspirv.fn("rspirv::binary::decoder", "words", "Decoder")
-    wt = [show_stmt(s) for s in wf["body"][1]]
-    n = wf["sig"]["params"][1][0]
-    good = len(wt) == 3 and wt[0].startswith("let mut ") and wt[0].endswith("= vec![];") and \
-        wt[1] == "for _ in 0..%s { %s.push(self.word()?); }" % (n, wt[0][8:].split(" ")[0]) and wt[2] == "Ok(%s)" % wt[0][8:].split(" ")[0]
-    chk.check(R1, good, "Decoder::words(n)=n×word()", "words() is %s" % wt, raw.where("words", "Decoder"))
+    from . import stringx
+    pb = stringx.hand_problem(ctx, "words")
+    chk.check(R1, pb is None, "Decoder::words(n)=n×word()", "words(n) differs from n successive word() requests: %s" % pb, raw.where("words", "Decoder"))
 
-    R2 = chk.rule("R-FRAME", "parse_inst: no first word -> Complete; word count 0 -> WordCountZero(offset-4, n); unknown opcode -> "
+    R2 = chk.rule("R-FRAME", "parse_inst, evaluated against a scripted decoder (first word 0x8421A5C3 / word count 0 / word count 1, at byte 0 and 1000): no first word -> Complete; word count 0 -> WordCountZero(offset-4, n); unknown opcode -> "
                   "OpcodeUnknown(offset-4, n, opcode); limit = word count - 1 set before the operands are parsed; words left afterwards "
                   "-> OperandExceeded(offset, n); otherwise the instruction; (word count, opcode) = (w >> 16, w & 0xffff)")
     W = raw.where("parse_inst", "Parser")
     f = ctx.rspirv.fn(PAR, "parse_inst", "Parser")
-    split_vars = {}
-    for n_ in walk(f["body"]):
-        pass
-    ir = [
-        ("WORD_READ", lambda t: True if re.match(r"^let Ok\(\w+\) = self\.decoder\.word\(\)$", t) or re.match(r"^self\.decoder\.word\(\) matches Ok\(", t)
-            else (False if re.match(r"^self\.decoder\.word\(\) matches Err\(", t) else None)),
-        ("WORD_COUNT_ZERO", lambda t: True if re.match(r"^\w+ == 0$", t) else (False if re.match(r"^\w+ != 0$", t) else None)),
-        ("OPCODE_KNOWN", lambda t: True if re.match(r"^let Some\(\w+\) = GInstTable::lookup_opcode\(\w+\)$", t) or re.match(r"^GInstTable::lookup_opcode\(\w+\) matches Some\(", t)
-            else (False if re.match(r"^GInstTable::lookup_opcode\(\w+\) matches None", t) else None)),
-        ("LIMIT_REACHED", lambda t: True if t == "self.decoder.limit_reached()" else None),
-    ]
-    base = {("WORD_READ", True), ("WORD_COUNT_ZERO", False)}
-    want = {("Err", "Complete"): frozenset({("WORD_READ", False)}),
-            ("Err", "WordCountZero"): frozenset({("WORD_READ", True), ("WORD_COUNT_ZERO", True)}),
-            ("Err", "OpcodeUnknown"): frozenset(base | {("OPCODE_KNOWN", False)}),
-            ("Err", "OperandExceeded"): frozenset(base | {("OPCODE_KNOWN", True), ("LIMIT_REACHED", False)}),
-            ("Ok", "inst"): frozenset(base | {("OPCODE_KNOWN", True), ("LIMIT_REACHED", True)})}
-    rs = result_sites(f)
-    decision_table(chk, R2, "parse_inst", rs, ir, want, W, lambda k, v: "inst" if k == "Ok" else v)
-    # error payloads
-    for kind, v, args, conds in rs:
-        if kind == "Err" and v in ("WordCountZero", "OpcodeUnknown", "OperandExceeded"):
-            a = [show(x) for x in args]
-            a[0] = resolve_offset_local(f, a[0], "State::%s(" % v)
-            off_ok = (a[0] in ("(self.decoder.offset() - WORD_NUM_BYTES)", "(self.decoder.offset() - 4)")) if v != "OperandExceeded" else a[0] == "self.decoder.offset()"
-            chk.check(R2, len(a) >= 2 and off_ok and a[1] == "self.inst_index" and (v != "OpcodeUnknown" or len(a) == 3),
-                      "payload:" + v, "error payload is %s" % a, W)
+    from . import headerx
+    for inst, pb, sample in headerx.parse_inst_problems(ctx):
+        chk.check(R2, pb is None, inst, "%s: %s" % (inst, pb), W, key="C03:frame:" + inst.split(",")[0], sample=sample if "well-formed instruction," in inst else None)
     chk.check(R2, consts.get("WORD_NUM_BYTES") == 4, "WORD_NUM_BYTES=4", "is %s" % consts.get("WORD_NUM_BYTES"), W)
-    # ordered statements in the accepting branch: set_limit(wc-1) < parse_operands(grammar)? < limit check < clear_limit
-    seq = [show(n) for n in walk(f["body"]) if n[0] == "mcall" and (show(n[1]) in ("self.decoder", "self") and n[2] in ("set_limit", "parse_operands", "clear_limit", "limit_reached"))]
-    idx = {k: i for i, k in enumerate(seq)}
-    sl = [s_ for s_ in seq if ".set_limit(" in s_]
-    po = [s_ for s_ in seq if "self.parse_operands(" in s_]
-    lr = [s_ for s_ in seq if ".limit_reached()" in s_]
-    cl = [s_ for s_ in seq if ".clear_limit()" in s_]
-    good = len(sl) == 1 and len(po) == 1 and len(lr) == 1 and len(cl) == 1 and idx[sl[0]] < idx[po[0]] < idx[lr[0]] < idx[cl[0]] \
-        and re.match(r"^self\.decoder\.set_limit\(\(\((\w+) - 1\) as usize\)\)$", sl[0]) is not None
-    chk.check(R2, good, "limit-bracketing", "limit handling sequence is %s" % seq, W, sample=seq)
-    pq = [n for n in walk(f["body"]) if n[0] == "try" and "parse_operands" in show(n)]
-    chk.check(R2, len(pq) == 1, "operand-errors-propagate", "parse_operands result is not propagated with `?`", W)
-    sp = ctx.rspirv.fn(PAR, "split_into_word_count_and_opcode", "Parser")
-    w_ = sp["sig"]["params"][0][0]
-    chk.check(R2, [show_stmt(s) for s in sp["body"][1]] == ["(((%s >> 16) as u16), ((%s & 65535) as u16))" % (w_, w_)],
-              "split(word)", "is %s" % [show_stmt(s) for s in sp["body"][1]], raw.where("split_into_word_count_and_opcode", "Parser"))
-    first = [show(n) for n in walk(f["body"]) if n[0] == "call" and "split_into_word_count_and_opcode" in show(n[1])]
-    chk.check(R2, len(first) == 1, "split-used-once", "split calls: %s" % first, W)
 
     R3 = chk.rule("R-QUANT", "parse_operands, abstractly interpreted on every operand list of length <= 3 over {One, ZeroOrOne, ZeroOrMore} with "
                   "0..4 words left: words left and One|ZeroOrOne -> consume, next logical operand; words left and ZeroOrMore -> consume, same "
@@ -293,8 +234,8 @@ def run(ctx, chk):
                       "grammar-conforming instructions with zero or several of them are rejected" % (ty, name, ops, c17.snake(ty)),
                       "rspirv/binary/autogen_parse_operand.rs", key="C03:paramq:%s::%s" % (ty, name))
 
-    R6 = chk.rule("R-INDEX", "inst_index is written only by parse_inst (one increment, first statement) and every positional error "
-                  "carries (decoder offset [- 4], inst_index)")
+    R6 = chk.rule("R-INDEX", "inst_index is written only by parse_inst (exactly one increment per call that read a word) and every positional "
+                  "error of the evaluated cases carries (byte offset of the instruction [or of the first excess word], 1-based instruction number)")
     writers = {}
     for p, fn in mir.fns.items():
         for b in fn["blocks"]:
@@ -303,26 +244,18 @@ def run(ctx, chk):
                     writers.setdefault(mir_name(p), []).append(where(s["span"]))
     chk.check(R6, list(writers) == ["binary::parser::Parser::parse_inst"] and len(writers["binary::parser::Parser::parse_inst"]) == 1,
               "inst_index-writers", "written by %s" % writers, raw.where("parse_inst", "Parser"))
-    fpi = ctx.rspirv.fn(PAR, "parse_inst", "Parser")
-    chk.check(R6, show_stmt(fpi["body"][1][0]) == "self.inst_index += 1;", "inst_index-incremented-first",
-              "first statement of parse_inst is %s" % show_stmt(fpi["body"][1][0])[:80], raw.where("parse_inst", "Parser"))
-    pn = ctx.rspirv.fn(PAR, "new", "Parser")
-    init = [n for n in walk(pn["body"]) if n[0] == "struct" and n[1].split("::")[-1] == "Parser"]
-    chk.check(R6, bool(init) and int_of(dict((a, b) for a, b in init[0][2]).get("inst_index")) == 0, "inst_index-starts-at-0",
-              "Parser::new initialises inst_index with %s" % (show(dict((a, b) for a, b in init[0][2]).get("inst_index")) if init else "?"), raw.where("new", "Parser"))
+    try:
+        pv = headerx.parser_new(ctx)
+        chk.check(R6, isinstance(pv, tuple) and pv[0] == "struct" and pv[2].get("inst_index") == 0, "inst_index-starts-at-0",
+                  "Parser::new yields %s" % headerx.short(pv)[:160], raw.where("new", "Parser"))
+    except Anchor as ex:
+        chk.bad(R6, "inst_index-starts-at-0", "Parser::new not analysable: %s" % ex, raw.where("new", "Parser"))
     npos = 0
-    for fname in ("parse_inst",):
-        ff = ctx.rspirv.fn(PAR, fname, "Parser")
-        for n in walk(ff["body"]):
-            if n[0] == "call" and (path_of(n[1]) or "").startswith("State::") and len(n[2]) >= 2:
-                v = path_of(n[1]).split("::")[-1]
-                if v in ("WordCountZero", "OpcodeUnknown", "OperandExpected", "OperandExceeded", "TypeUnsupported", "SpecConstantOpIntegerIncorrect"):
-                    npos += 1
-                    a = [show(x) for x in n[2]]
-                    a[0] = resolve_offset_local(ff, a[0], "State::%s(" % v)
-                    ok = a[0] in ("self.decoder.offset()", "(self.decoder.offset() - WORD_NUM_BYTES)", "(self.decoder.offset() - 4)") and a[1] == "self.inst_index"
-                    chk.check(R6, ok, "%s:%s#%d" % (fname, v, npos), "payload %s" % a, raw.where(fname, "Parser"))
-    chk.floor(R6, "positional error sites", npos, 3)
+    for inst, pb, sample in headerx.parse_inst_problems(ctx):
+        if any(k in inst for k in ("word count 0", "unknown opcode", "words left after")):
+            npos += 1
+            chk.check(R6, pb is None, "position:" + inst, "%s: %s" % (inst, pb), raw.where("parse_inst", "Parser"), key="C03:position:" + inst.split(",")[0])
+    chk.floor(R6, "positional error cases", npos, 6)
     # parse_spec_constant_op: evaluated symbolically
     from . import quantx as qx
     ERRV = ("err", ("enum", "State::SpecConstantOpIntegerIncorrect", [("sym", "offset"), ("selffield", "inst_index")]))
